@@ -162,3 +162,88 @@ func ProjDocs() []interface{} {
 	}
 	return out
 }
+
+// TypedDoc generates a document of the typed family used by the random
+// expression generator (gen.TypedKeys): an object whose keys hold values of
+// known types, recursively ("o" nests another typed object, "ao" is an
+// array of typed objects), so that generated look-ups and function calls
+// are mostly well-typed. Some keys are randomly missing or null.
+func (g *Rand) TypedDoc(depth int) map[string]interface{} {
+	r := g.R
+	nums := []float64{0, 1, -1, 2, 3, 1.5, -0.5, 10, 2, 1}
+	strs := []string{"", "a", "b", "ab", "ba", "é", "10", "z", "a"}
+	d := map[string]interface{}{}
+	put := func(k string, v func() interface{}) {
+		switch r.Intn(12) {
+		case 0: // missing
+		case 1:
+			d[k] = nil
+		default:
+			d[k] = v()
+		}
+	}
+	put("n", func() interface{} { return gen.Pick(r, nums) })
+	put("m", func() interface{} { return gen.Pick(r, nums) })
+	put("s", func() interface{} { return gen.Pick(r, strs) })
+	put("t", func() interface{} { return gen.Pick(r, strs) })
+	put("b", func() interface{} { return r.Bool() })
+	d["z"] = nil
+	put("an", func() interface{} {
+		n := r.Intn(5)
+		a := make([]interface{}, n)
+		for i := range a {
+			a[i] = gen.Pick(r, nums)
+		}
+		return a
+	})
+	put("as", func() interface{} {
+		n := r.Intn(5)
+		a := make([]interface{}, n)
+		for i := range a {
+			a[i] = gen.Pick(r, strs)
+		}
+		return a
+	})
+	put("am", func() interface{} { return g.Array(g.MaxDepth - 1) })
+	put("aa", func() interface{} {
+		n := r.Intn(4)
+		a := make([]interface{}, n)
+		for i := range a {
+			if r.Chance(1, 5) {
+				a[i] = g.Value(g.MaxDepth)
+			} else {
+				m := r.Intn(3)
+				b := make([]interface{}, m)
+				for j := range b {
+					b[j] = gen.Pick(r, nums)
+				}
+				a[i] = b
+			}
+		}
+		return a
+	})
+	if depth < 2 {
+		put("o", func() interface{} { return g.TypedDoc(depth + 1) })
+		put("ao", func() interface{} {
+			n := r.Intn(4)
+			a := make([]interface{}, n)
+			for i := range a {
+				if r.Chance(1, 8) {
+					a[i] = g.Value(g.MaxDepth)
+				} else {
+					a[i] = g.TypedDoc(depth + 1)
+				}
+			}
+			return a
+		})
+	} else {
+		d["o"] = map[string]interface{}{"n": gen.Pick(r, nums), "s": gen.Pick(r, strs)}
+		d["ao"] = []interface{}{map[string]interface{}{"n": gen.Pick(r, nums), "s": gen.Pick(r, strs)}, map[string]interface{}{"n": gen.Pick(r, nums), "s": gen.Pick(r, strs)}}
+	}
+	for _, k := range []string{"a", "c", "x"} {
+		if r.Chance(1, 2) {
+			d[k] = g.Value(g.MaxDepth - 1)
+		}
+	}
+	return d
+}
